@@ -9,11 +9,14 @@ import (
 	"fmt"
 	"net"
 	"os"
+	"strings"
 	"sync"
+	"sync/atomic"
 	"testing"
 	"time"
 
 	"github.com/pion/dtls/v2"
+	"pgregory.net/rapid"
 
 	"github.com/vmware/go-ipfix/pkg/collector"
 	"github.com/vmware/go-ipfix/pkg/entities"
@@ -40,15 +43,18 @@ type Cell struct {
 	ClientCA   bool   `json:"client_ca,omitempty"`
 	MaxVersion string `json:"max_version,omitempty"` // 1.1 | 1.2 | 1.3
 	Plain      string `json:"plain,omitempty"`
+	// AddrHost (exporter direction): the collector is addressed by this host name instead of the
+	// IP literal 127.0.0.1; with ServerName unset it is the name the certificate must match.
+	AddrHost string `json:"addr_host,omitempty"`
 }
 
 var (
-	rec               *ev.Recorder
-	caGood, caOther   *glue.CA
-	serverCerts       map[string]glue.Leaf
-	serverSANs        map[string][]string
-	clientCerts       map[string]*glue.Leaf
-	collectorCert     glue.Leaf
+	rec             *ev.Recorder
+	caGood, caOther *glue.CA
+	serverCerts     map[string]glue.Leaf
+	serverSANs      map[string][]string
+	clientCerts     map[string]*glue.Leaf
+	collectorCert   glue.Leaf
 )
 
 var versions = map[string]uint16{"1.1": tls.VersionTLS11, "1.2": tls.VersionTLS12, "1.3": tls.VersionTLS13}
@@ -86,6 +92,9 @@ func TestMain(m *testing.M) {
 	}
 	collectorCert = caGood.LoopbackServer()
 	if rp := ev.LoadReplay(); rp != nil {
+		if rp.Phase == "generated_identities" {
+			ev.RunReplay(rp, func(g GenCell) *ev.Failure { f, _ := runGen(g); return f })
+		}
 		ev.RunReplay(rp, func(c Cell) *ev.Failure { f, _ := runCell(c); return f })
 	}
 	rec = ev.New("C18", "the configuration matrix, enumerated completely in both tiers: library exporter against a harness-controlled server, {server certificate: trusted / other CA / self-signed / expired / not-yet-valid / wrong SAN / no SAN} x {ServerName matching DNS name / unset / mismatching DNS name / matching IP literal / mismatching IP literal} x {tls with server max version 1.1 / 1.2 / 1.3, dtls}; harness-controlled TLS client against the library collector, {client certificate: none / trusted / other CA / expired} x {client CA set / unset} x {client max version 1.1 / 1.2 / 1.3}; plaintext peers against encrypted endpoints and encrypted exporters against plaintext collectors (tcp and udp); an independent predicate written from the statement decides each cell; non-trivial = every cell (each is a distinct session with a decided expectation)",
@@ -95,8 +104,11 @@ func TestMain(m *testing.M) {
 	os.Exit(code)
 }
 
-func sanOK(cert, sn string) bool {
+func sanOK(cert, sn, addrHost string) bool {
 	want := map[string]string{"matching": "localhost", "unset": "127.0.0.1", "mismatching": "other.example", "ip_matching": "127.0.0.1", "ip_mismatching": "192.0.2.1"}[sn]
+	if sn == "unset" && addrHost != "" {
+		want = addrHost
+	}
 	for _, s := range serverSANs[cert] {
 		if s == want {
 			return true
@@ -125,7 +137,7 @@ func expectAccept(c Cell) bool {
 	switch c.Dir {
 	case "exporter":
 		ok := c.ServerCert == "trusted" || c.ServerCert == "wrong_san" || c.ServerCert == "no_san" || c.ServerCert == "wrong_san_with_decoy"
-		ok = ok && sanOK(c.ServerCert, c.ServerName)
+		ok = ok && sanOK(c.ServerCert, c.ServerName, c.AddrHost)
 		if c.Proto == "tls" {
 			ok = ok && c.MaxVersion != "1.1"
 		}
@@ -154,14 +166,35 @@ func runCell(c Cell) (*ev.Failure, bool) {
 }
 
 func exporterVsTLSServer(c Cell) (*ev.Failure, bool) {
-	leaf := serverCerts[c.ServerCert]
+	return exporterVsTLS(serverCerts[c.ServerCert], versions[c.MaxVersion], snValue(c.ServerName), c.AddrHost, expectAccept(c), c)
+}
+
+// addrOf: the collector address handed to the exporter: the listener's IP literal, or (host != "")
+// that host name with the listener's port.
+func addrOf(a net.Addr, host string) string {
+	if host == "" {
+		return a.String()
+	}
+	_, port, _ := net.SplitHostPort(a.String())
+	return net.JoinHostPort(host, port)
+}
+
+// localhostIsLoopback4: the host-name cells need "localhost" to resolve to 127.0.0.1 only.
+var localhostIsLoopback4 = func() bool {
+	a, err := net.LookupHost("localhost")
+	return err == nil && len(a) == 1 && a[0] == "127.0.0.1"
+}()
+
+// exporterVsTLS: the library exporter (trusting caGood, expecting serverName) against a harness
+// TLS server that presents leaf and speaks at most maxVersion; want is what the statement allows.
+func exporterVsTLS(leaf glue.Leaf, maxVersion uint16, serverName, addrHost string, want bool, c any) (*ev.Failure, bool) {
 	cert, err := tls.X509KeyPair(leaf.CertPEM, leaf.KeyPEM)
 	if err != nil {
-		return ev.Failf("harness: %v", err), false
+		return envFail(err), false
 	}
-	ln, err := tls.Listen("tcp", "127.0.0.1:0", &tls.Config{Certificates: []tls.Certificate{cert}, MinVersion: tls.VersionTLS10, MaxVersion: versions[c.MaxVersion]})
+	ln, err := tls.Listen("tcp", "127.0.0.1:0", &tls.Config{Certificates: []tls.Certificate{cert}, MinVersion: tls.VersionTLS10, MaxVersion: maxVersion})
 	if err != nil {
-		return ev.Failf("harness: %v", err), false
+		return envFail(err), false
 	}
 	defer ln.Close()
 	type srv struct {
@@ -187,9 +220,8 @@ func exporterVsTLSServer(c Cell) (*ev.Failure, bool) {
 		n, _ := tc.Read(buf)
 		resc <- srv{version: tc.ConnectionState().Version, data: buf[:n]}
 	}()
-	ep, err := exporter.InitExportingProcess(exporter.ExporterInput{CollectorAddress: ln.Addr().String(), CollectorProtocol: "tcp", ObservationDomainID: 1,
-		TLSClientConfig: &exporter.ExporterTLSClientConfig{ServerName: snValue(c.ServerName), CAData: caGood.CertPEM}, CheckConnInterval: time.Hour})
-	want := expectAccept(c)
+	ep, err := exporter.InitExportingProcess(exporter.ExporterInput{CollectorAddress: addrOf(ln.Addr(), addrHost), CollectorProtocol: "tcp", ObservationDomainID: 1,
+		TLSClientConfig: &exporter.ExporterTLSClientConfig{ServerName: serverName, CAData: caGood.CertPEM}, CheckConnInterval: time.Hour})
 	if err != nil {
 		if want {
 			return ev.Failf("exporter refused a collector it must accept (cell %+v): %v", c, err), false
@@ -221,15 +253,18 @@ func exporterVsTLSServer(c Cell) (*ev.Failure, bool) {
 }
 
 func exporterVsDTLSServer(c Cell) (*ev.Failure, bool) {
-	leaf := serverCerts[c.ServerCert]
+	return exporterVsDTLS(serverCerts[c.ServerCert], snValue(c.ServerName), c.AddrHost, expectAccept(c), c)
+}
+
+func exporterVsDTLS(leaf glue.Leaf, serverName, addrHost string, want bool, c any) (*ev.Failure, bool) {
 	cert, err := tls.X509KeyPair(leaf.CertPEM, leaf.KeyPEM)
 	if err != nil {
-		return ev.Failf("harness: %v", err), false
+		return envFail(err), false
 	}
 	addr, _ := net.ResolveUDPAddr("udp", "127.0.0.1:0")
 	ln, err := dtls.Listen("udp", addr, &dtls.Config{Certificates: []tls.Certificate{cert}, ExtendedMasterSecret: dtls.RequireExtendedMasterSecret})
 	if err != nil {
-		return ev.Failf("harness: %v", err), false
+		return envFail(err), false
 	}
 	defer ln.Close()
 	datac := make(chan []byte, 1)
@@ -244,9 +279,8 @@ func exporterVsDTLSServer(c Cell) (*ev.Failure, bool) {
 		n, _ := conn.Read(buf)
 		datac <- buf[:n]
 	}()
-	ep, err := exporter.InitExportingProcess(exporter.ExporterInput{CollectorAddress: ln.Addr().String(), CollectorProtocol: "udp", ObservationDomainID: 1, TempRefTimeout: 3600,
-		TLSClientConfig: &exporter.ExporterTLSClientConfig{ServerName: snValue(c.ServerName), CAData: caGood.CertPEM}})
-	want := expectAccept(c)
+	ep, err := exporter.InitExportingProcess(exporter.ExporterInput{CollectorAddress: addrOf(ln.Addr(), addrHost), CollectorProtocol: "udp", ObservationDomainID: 1, TempRefTimeout: 3600,
+		TLSClientConfig: &exporter.ExporterTLSClientConfig{ServerName: serverName, CAData: caGood.CertPEM}})
 	if err != nil {
 		if want {
 			return ev.Failf("DTLS exporter refused a collector it must accept (cell %+v): %v", c, err), false
@@ -255,7 +289,7 @@ func exporterVsDTLSServer(c Cell) (*ev.Failure, bool) {
 	}
 	defer ep.CloseConnToCollector()
 	if !want {
-		return ev.Failf("DTLS exporter completed a session with a collector it cannot verify (cell %+v): certificate %s, expected name/address %q", c, c.ServerCert, map[string]string{"matching": "localhost", "unset": "127.0.0.1 (the collector address)", "mismatching": "other.example", "ip_matching": "127.0.0.1", "ip_mismatching": "192.0.2.1"}[c.ServerName]), true
+		return ev.Failf("DTLS exporter completed a session with a collector it cannot verify (cell %+v; expected name %q, unset = the collector address 127.0.0.1)", c, serverName), true
 	}
 	if err := sendTemplate(ep); err != nil {
 		return ev.Failf("send over the established DTLS session failed: %v", err), true
@@ -327,7 +361,7 @@ func clientVsCollector(c Cell) (*ev.Failure, bool) {
 	}
 	col, err := startCollector(in)
 	if err != nil {
-		return ev.Failf("harness: %v", err), false
+		return envFail(err), false
 	}
 	defer col.cp.Stop()
 	roots := x509.NewCertPool()
@@ -336,7 +370,7 @@ func clientVsCollector(c Cell) (*ev.Failure, bool) {
 	if l := clientCerts[c.ClientCert]; l != nil {
 		kp, err := tls.X509KeyPair(l.CertPEM, l.KeyPEM)
 		if err != nil {
-			return ev.Failf("harness: %v", err), false
+			return envFail(err), false
 		}
 		cfg.Certificates = []tls.Certificate{kp}
 	}
@@ -387,7 +421,7 @@ func plaintext(c Cell) (*ev.Failure, bool) {
 	case "plain_tcp_client_to_tls_collector":
 		col, err := startCollector(collector.CollectorInput{Address: "127.0.0.1:0", Protocol: "tcp", MaxBufferSize: 65535, IsEncrypted: true, ServerCert: collectorCert.CertPEM, ServerKey: collectorCert.KeyPEM, CACert: map[bool][]byte{true: caGood.CertPEM, false: nil}[c.ClientCA]})
 		if err != nil {
-			return ev.Failf("harness: %v", err), false
+			return envFail(err), false
 		}
 		defer col.cp.Stop()
 		conn, err := net.Dial("tcp", col.cp.GetAddress().String())
@@ -413,7 +447,7 @@ func plaintext(c Cell) (*ev.Failure, bool) {
 	case "tls_exporter_to_plain_tcp_collector":
 		col, err := startCollector(collector.CollectorInput{Address: "127.0.0.1:0", Protocol: "tcp", MaxBufferSize: 65535})
 		if err != nil {
-			return ev.Failf("harness: %v", err), false
+			return envFail(err), false
 		}
 		defer col.cp.Stop()
 		ep, err := exporter.InitExportingProcess(exporter.ExporterInput{CollectorAddress: col.cp.GetAddress().String(), CollectorProtocol: "tcp", ObservationDomainID: 4242,
@@ -427,10 +461,74 @@ func plaintext(c Cell) (*ev.Failure, bool) {
 		if col.delivered(4242) {
 			return ev.Failf("exporter with TLS settings sent a message in clear"), true
 		}
+	case "secured_exporter_other_network_name":
+		// CollectorProtocol given as one of Go's other network names for the same transports
+		// (c.Proto: tcp4, tcp6, udp4, udp6) together with security settings: whatever the exporter
+		// makes of it (an error, a process without a connection), no message may travel in clear.
+		// The peer is a plain harness socket that records what arrives.
+		host := "127.0.0.1:0"
+		if strings.HasSuffix(c.Proto, "6") {
+			host = "[::1]:0"
+		}
+		got := make(chan []byte, 16)
+		var addr string
+		if strings.HasPrefix(c.Proto, "tcp") {
+			ln, err := net.Listen("tcp", host)
+			if err != nil {
+				return envFail(err), false
+			}
+			defer ln.Close()
+			addr = ln.Addr().String()
+			go func() {
+				conn, err := ln.Accept()
+				if err != nil {
+					return
+				}
+				defer conn.Close()
+				buf := make([]byte, 4096)
+				conn.SetReadDeadline(time.Now().Add(2 * time.Second))
+				n, _ := conn.Read(buf)
+				got <- buf[:n]
+			}()
+		} else {
+			ua, _ := net.ResolveUDPAddr("udp", host)
+			pc, err := net.ListenUDP("udp", ua)
+			if err != nil {
+				return envFail(err), false
+			}
+			defer pc.Close()
+			addr = pc.LocalAddr().String()
+			go func() {
+				buf := make([]byte, 4096)
+				pc.SetReadDeadline(time.Now().Add(2 * time.Second))
+				n, _, _ := pc.ReadFromUDP(buf)
+				got <- buf[:n]
+			}()
+		}
+		func() {
+			defer func() { recover() }() // a process left without a connection panics on use; not judged here
+			ep, err := exporter.InitExportingProcess(exporter.ExporterInput{CollectorAddress: addr, CollectorProtocol: c.Proto, ObservationDomainID: 4242, TempRefTimeout: 3600,
+				TLSClientConfig: &exporter.ExporterTLSClientConfig{ServerName: "localhost", CAData: caGood.CertPEM}, CheckConnInterval: time.Hour})
+			if err != nil || ep == nil {
+				return
+			}
+			defer func() {
+				defer func() { recover() }()
+				ep.CloseConnToCollector()
+			}()
+			sendTemplate(ep)
+		}()
+		select {
+		case b := <-got:
+			if _, _, err := ref.ParseMessage(b); err == nil && len(b) > 0 {
+				return ev.Failf("exporter configured with security settings and CollectorProtocol %q sent a message in clear (%d bytes arrived at a plaintext socket: % x)", c.Proto, len(b), b[:min(len(b), 24)]), true
+			}
+		case <-time.After(400 * time.Millisecond):
+		}
 	case "plain_udp_client_to_dtls_collector":
 		col, err := startCollector(collector.CollectorInput{Address: "127.0.0.1:0", Protocol: "udp", MaxBufferSize: 65535, IsEncrypted: true, ServerCert: collectorCert.CertPEM, ServerKey: collectorCert.KeyPEM})
 		if err != nil {
-			return ev.Failf("harness: %v", err), false
+			return envFail(err), false
 		}
 		defer col.cp.Stop()
 		conn, err := net.Dial("udp", col.cp.GetAddress().String())
@@ -453,7 +551,7 @@ func plaintext(c Cell) (*ev.Failure, bool) {
 	case "dtls_exporter_to_plain_udp_collector":
 		col, err := startCollector(collector.CollectorInput{Address: "127.0.0.1:0", Protocol: "udp", MaxBufferSize: 65535})
 		if err != nil {
-			return ev.Failf("harness: %v", err), false
+			return envFail(err), false
 		}
 		defer col.cp.Stop()
 		ep, err := exporter.InitExportingProcess(exporter.ExporterInput{CollectorAddress: col.cp.GetAddress().String(), CollectorProtocol: "udp", ObservationDomainID: 4242, TempRefTimeout: 3600,
@@ -481,7 +579,7 @@ func sequence(c Cell) (*ev.Failure, bool) {
 	}
 	col, err := startCollector(in)
 	if err != nil {
-		return ev.Failf("harness: %v", err), false
+		return envFail(err), false
 	}
 	defer col.cp.Stop()
 	mk := func(domain uint32, ca []byte, client *glue.Leaf) (*exporter.ExportingProcess, error) {
@@ -524,6 +622,147 @@ func sequence(c Cell) (*ev.Failure, bool) {
 	return nil, false
 }
 
+// envFail: the harness could not set up its own side of a cell (no free port, ...). That is not a
+// verdict about the library: the cell is left unjudged and counted; too many of them make the run
+// inconclusive.
+var envFails atomic.Int64
+
+func envFail(err error) *ev.Failure {
+	envFails.Add(1)
+	return nil
+}
+
+// GenCell is one generated server identity for the exporter direction, beyond the stated matrix:
+// who signed the leaf (also through an intermediate), the validity window, a list of subject
+// alternative names (wildcards included) and the name the exporter expects.
+type GenCell struct {
+	Proto      string   `json:"proto"`                 // tls | dtls
+	MaxVersion string   `json:"max_version,omitempty"` // tls: 1.1 | 1.2 | 1.3
+	Issuer     string   `json:"issuer"`                // root | inter | inter_unsent | inter_not_ca | inter_expired | other_root | self
+	Validity   string   `json:"validity"`              // valid | expired | not_yet
+	SANs       []string `json:"sans"`
+	ServerName string   `json:"server_name"`         // "" = unset (the host of the collector address is expected)
+	AddrHost   string   `json:"addr_host,omitempty"` // "" = the IP literal 127.0.0.1; else a host name resolving to it
+}
+
+// nameMatches: RFC 6125 as the statement needs it - IP literals match IP SANs exactly, DNS names
+// match DNS SANs case-insensitively, "*." stands for exactly one leftmost label.
+func nameMatches(sans []string, expected string) bool {
+	if ip := net.ParseIP(expected); ip != nil {
+		for _, s := range sans {
+			if sip := net.ParseIP(s); sip != nil && sip.Equal(ip) {
+				return true
+			}
+		}
+		return false
+	}
+	for _, s := range sans {
+		if net.ParseIP(s) != nil {
+			continue
+		}
+		s, e := strings.ToLower(s), strings.ToLower(expected)
+		if s == e {
+			return true
+		}
+		if strings.HasPrefix(s, "*.") {
+			if i := strings.Index(e, "."); i > 0 && e[i:] == s[1:] {
+				return true
+			}
+		}
+	}
+	return false
+}
+
+func (g GenCell) expected() string {
+	switch {
+	case g.ServerName != "":
+		return g.ServerName
+	case g.AddrHost != "":
+		return g.AddrHost
+	}
+	return "127.0.0.1"
+}
+
+func (g GenCell) want() bool {
+	ok := (g.Issuer == "root" || g.Issuer == "inter") && g.Validity == "valid"
+	ok = ok && nameMatches(g.SANs, g.expected())
+	if g.Proto == "tls" {
+		ok = ok && g.MaxVersion != "1.1"
+	}
+	return ok
+}
+
+// mint builds the server's certificate bundle for the cell.
+func (g GenCell) mint() glue.Leaf {
+	now := time.Now()
+	spec := glue.LeafSpec{CN: "collector"}
+	for _, s := range g.SANs {
+		if ip := net.ParseIP(s); ip != nil {
+			spec.IPs = append(spec.IPs, ip)
+		} else {
+			spec.DNS = append(spec.DNS, s)
+		}
+	}
+	switch g.Validity {
+	case "expired":
+		spec.NotBefore, spec.NotAfter = now.Add(-48*time.Hour), now.Add(-time.Hour)
+	case "not_yet":
+		spec.NotBefore, spec.NotAfter = now.Add(time.Hour), now.Add(48*time.Hour)
+	}
+	switch g.Issuer {
+	case "root":
+		return caGood.Issue(spec)
+	case "other_root":
+		return caOther.Issue(spec)
+	case "self":
+		spec.SelfSign = true
+		return caGood.Issue(spec)
+	}
+	nb, na := now.Add(-time.Hour), now.Add(24*time.Hour)
+	if g.Issuer == "inter_expired" {
+		nb, na = now.Add(-48*time.Hour), now.Add(-time.Hour)
+	}
+	inter := caGood.Sub("verif intermediate", g.Issuer != "inter_not_ca", nb, na)
+	leaf := inter.Issue(spec)
+	if g.Issuer != "inter_unsent" {
+		leaf.CertPEM = append(append([]byte(nil), leaf.CertPEM...), inter.CertPEM...)
+	}
+	return leaf
+}
+
+func runGen(g GenCell) (*ev.Failure, bool) {
+	if g.Proto == "dtls" {
+		return exporterVsDTLS(g.mint(), g.ServerName, g.AddrHost, g.want(), g)
+	}
+	return exporterVsTLS(g.mint(), versions[g.MaxVersion], g.ServerName, g.AddrHost, g.want(), g)
+}
+
+func genGenCell(t *rapid.T) GenCell {
+	g := GenCell{Proto: rapid.SampledFrom([]string{"tls", "tls", "tls", "dtls"}).Draw(t, "proto")}
+	if g.Proto == "tls" {
+		g.MaxVersion = rapid.SampledFrom([]string{"1.3", "1.3", "1.2", "1.2", "1.1"}).Draw(t, "max_version")
+	}
+	g.Issuer = rapid.SampledFrom([]string{"root", "root", "root", "inter", "inter", "inter", "inter_unsent", "inter_not_ca", "inter_expired", "other_root", "self"}).Draw(t, "issuer")
+	g.Validity = rapid.SampledFrom([]string{"valid", "valid", "valid", "valid", "expired", "not_yet"}).Draw(t, "validity")
+	g.ServerName = rapid.SampledFrom([]string{"", "", "localhost", "other.example", "a.example.com", "a.b.example.com", "example.com", "collector.example.com", "localhost.example.org", "127.0.0.1", "192.0.2.1", "::1"}).Draw(t, "server_name")
+	g.SANs = rapid.SliceOfNDistinct(rapid.SampledFrom([]string{"localhost", "other.example", "*.example.com", "collector.example.com", "127.0.0.1", "192.0.2.1", "::1", "LocalHost.Example.Org"}), 0, 4, rapid.ID[string]).Draw(t, "sans")
+	// so that the name is not what decides most cells: two times in three the list also has an
+	// entry that covers the expected name
+	if localhostIsLoopback4 && rapid.IntRange(0, 2).Draw(t, "by_name") == 0 {
+		g.AddrHost = "localhost"
+	}
+	if rapid.IntRange(0, 2).Draw(t, "covered") > 0 {
+		e := g.expected()
+		if !nameMatches(g.SANs, e) {
+			if i := strings.Index(e, "."); net.ParseIP(e) == nil && i > 0 && strings.Count(e, ".") >= 2 && rapid.Bool().Draw(t, "wild") {
+				e = "*" + e[i:]
+			}
+			g.SANs = append(g.SANs, e)
+		}
+	}
+	return g
+}
+
 func cells() []Cell {
 	var out []Cell
 	for _, sc := range []string{"trusted", "other_ca", "self_signed", "expired", "not_yet_valid", "wrong_san", "no_san", "wrong_san_with_decoy"} {
@@ -532,6 +771,14 @@ func cells() []Cell {
 				out = append(out, Cell{Dir: "exporter", Proto: "tls", ServerCert: sc, ServerName: sn, MaxVersion: v})
 			}
 			out = append(out, Cell{Dir: "exporter", Proto: "dtls", ServerCert: sc, ServerName: sn})
+		}
+		// the collector addressed by host name, with ServerName unset (the address host is the expected
+		// name) and with a mismatching ServerName (which wins)
+		if localhostIsLoopback4 {
+			for _, sn := range []string{"unset", "mismatching"} {
+				out = append(out, Cell{Dir: "exporter", Proto: "tls", ServerCert: sc, ServerName: sn, MaxVersion: "1.3", AddrHost: "localhost"},
+					Cell{Dir: "exporter", Proto: "dtls", ServerCert: sc, ServerName: sn, AddrHost: "localhost"})
+			}
 		}
 	}
 	for _, cc := range []string{"none", "trusted", "other_ca", "expired"} {
@@ -551,6 +798,10 @@ func cells() []Cell {
 		Cell{Dir: "plaintext", Plain: "tls_exporter_to_plain_tcp_collector"},
 		Cell{Dir: "plaintext", Plain: "plain_udp_client_to_dtls_collector"},
 		Cell{Dir: "plaintext", Plain: "dtls_exporter_to_plain_udp_collector"},
+		Cell{Dir: "plaintext", Plain: "secured_exporter_other_network_name", Proto: "tcp4"},
+		Cell{Dir: "plaintext", Plain: "secured_exporter_other_network_name", Proto: "tcp6"},
+		Cell{Dir: "plaintext", Plain: "secured_exporter_other_network_name", Proto: "udp4"},
+		Cell{Dir: "plaintext", Plain: "secured_exporter_other_network_name", Proto: "udp6"},
 	)
 	return out
 }
@@ -603,4 +854,34 @@ func TestC18(t *testing.T) {
 	}
 	rec.SetExhaustive()
 	rec.Extra("cells", len(all))
+	if t.Failed() {
+		return
+	}
+	// beyond the stated matrix: generated server identities (exporter direction)
+	ev.Rapid(t, rec, "generated_identities", rec.Scale(150, 120000), genGenCell, func(g GenCell) *ev.Failure {
+		start := time.Now()
+		f, up := runGen(g)
+		if g.Proto == "tls" && rec.Thorough() {
+			// every TLS cell leaves a TCP port in TIME_WAIT for a minute: the shards together stay
+			// below about 400 cells a second
+			time.Sleep(time.Until(start.Add(20 * time.Millisecond)))
+		}
+		cl := []string{"generated_identity", "gen_proto_" + g.Proto, "gen_issuer_" + g.Issuer}
+		if g.want() {
+			cl = append(cl, "gen_expected_accept")
+		} else {
+			cl = append(cl, "gen_expected_refuse")
+		}
+		if up {
+			cl = append(cl, "session_observed")
+		}
+		rec.Case(ev.Hash(g), true, cl...)
+		return f
+	})
+	if n := envFails.Load(); n > 0 {
+		rec.Extra("cells_unjudged_environment", n)
+		if n > 20 {
+			rec.Inconclusive(fmt.Sprintf("%d cells could not be set up by the harness (ports exhausted?)", n))
+		}
+	}
 }
